@@ -67,6 +67,8 @@ def run_one(m, mode):
                     line = line.strip()
                     if line.startswith("VIOLATED") or line.startswith("UNDECIDED"):
                         rules_hit.add(line.split()[1].split("/")[0])
+            elif c.returncode == 3:
+                continue  # property not registered (yet)
             elif c.returncode not in (0, 1):
                 res.update(status="checker-error", detail=c.stdout[-500:] + c.stderr[-500:]); return res
         res["flagged"] = flagged
